@@ -303,6 +303,13 @@ func runC20(c *mon.Ctx) {
 				if rng.Intn(12) == 0 {
 					m = []int{1 << 10, 1 << 16, 1 << 20, 1<<31 - 1, 257, 512, 1023}[rng.Intn(7)] // far more workers allowed than iterations
 				}
+				if rng.Intn(25) == 0 {
+					// iteration counts around 2^12, 2^16 and beyond 2^20 (16-bit counters, chunk tables)
+					n = []int{4095, 4096, 4097, 65535, 65536, 65537, 1<<20 + 3}[rng.Intn(7)]
+					if rng.Intn(2) == 0 {
+						m = []int{255, 256, 257, 1024, 4096}[rng.Intn(5)]
+					}
+				}
 				delay := rng.Intn(3)
 				c20call(c, n, m, false, delay, rng.Uint64())
 				cl, nt := c20class(n, m, delay, false)
